@@ -792,7 +792,7 @@ def run_C15(ctx):
                        "error classes come from the TLA+ evaluator (value-vs-failure agreement with the real evaluator is C01)",
                        "one schema and a bounded universe of conforming data; unsoundness that needs other shapes is missed"]
     q = ctx.quick
-    res = vlib.tlc(ctx, "policies.gen", "MC_Typing", GEN_CFG + "INVARIANT EmitTable\nCONSTANT Stride = %d\n" % (4 if q else 1),
+    res = vlib.tlc(ctx, "policies.gen", "MC_Typing", GEN_CFG + "INVARIANT EmitTable\nCONSTANT Stride = %d\nCONSTANT ScopeStride = %d\n" % (4 if q else 1, 7 if q else 1),
                    ["mc/MC_Typing.tla"], 1, (), None, 7200)
     d = res["dir"]
     table = vlib.read_ndjson(os.path.join(d, "table.ndjson"))[0]
